@@ -106,6 +106,13 @@ func (g *generator) GenerateFile(f *file) error {
 	for _, names := range f.Imports {
 		aliases[names[0]] = struct{}{}
 	}
+	// Names declared at package level are taken too: an import added to this
+	// file must not share its name with a package-level declaration.
+	if f.Package != nil && f.Package.Types != nil {
+		for _, name := range f.Package.Types.Scope().Names() {
+			aliases[name] = struct{}{}
+		}
+	}
 
 	// Build tags appear before the package clause.
 	// Write those to the output with cff tags inverted.
